@@ -50,6 +50,7 @@ type api4 struct {
 	c    *nclient4.Client
 	dest *net.UDPAddr
 	mt   int
+	big  int
 }
 
 const idOpt4 = 224
@@ -76,7 +77,7 @@ func newAPI4(s *Sim, conn net.PacketConn) *api4 {
 		panic(err)
 	}
 	setBufCap(c, s.cfg.BufCap)
-	return &api4{c: c, dest: dest, mt: s.cfg.MsgType}
+	return &api4{c: c, dest: dest, mt: s.cfg.MsgType, big: s.cfg.BigReq}
 }
 
 func xid4(x int) dhcpv4.TransactionID { return dhcpv4.TransactionID{0xab, byte(x >> 16), byte(x >> 8), byte(x)} }
@@ -110,6 +111,9 @@ func (a *api4) Prepare(ctx context.Context, xid int, verdict func(int, bool) boo
 	}
 	if a.mt != 0 {
 		req.UpdateOption(dhcpv4.OptMessageType(dhcpv4.MessageType(a.mt))) // the schedule is the same whatever is being sent
+	}
+	if a.big > 0 { // requests larger than an Ethernet frame (vendor information, long class data): sent like any other
+		req.UpdateOption(dhcpv4.OptGeneric(dhcpv4.OptionVendorSpecificInformation, make([]byte, a.big)))
 	}
 	onReq(req.ToBytes())
 	var m nclient4.Matcher
@@ -217,6 +221,7 @@ type api6 struct {
 	c    *nclient6.Client
 	dest *net.UDPAddr
 	mt   int
+	big  int
 }
 
 const idOpt6 = 65001
@@ -240,7 +245,7 @@ func newAPI6(s *Sim, conn net.PacketConn) *api6 {
 		panic(err)
 	}
 	setBufCap(c, s.cfg.BufCap)
-	return &api6{c: c, dest: dest, mt: s.cfg.MsgType}
+	return &api6{c: c, dest: dest, mt: s.cfg.MsgType, big: s.cfg.BigReq}
 }
 
 func xid6(x int) dhcpv6.TransactionID { return dhcpv6.TransactionID{byte(x >> 16), byte(x >> 8), byte(x)} }
@@ -275,6 +280,9 @@ func (a *api6) Prepare(ctx context.Context, xid int, verdict func(int, bool) boo
 	}
 	req.AddOption(&dhcpv6.OptFQDN{DomainName: &rfc1035label.Labels{Labels: []string{"host.example.org"}}})
 	req.AddOption(dhcpv6.OptRequestedOption(dhcpv6.OptionSNTPServerList, dhcpv6.OptionDomainSearchList))
+	if a.big > 0 {
+		req.AddOption(&dhcpv6.OptVendorOpts{EnterpriseNumber: 9, VendorOpts: dhcpv6.Options{&dhcpv6.OptionGeneric{OptionCode: 1, OptionData: make([]byte, a.big)}}})
+	}
 	onReq(req.ToBytes())
 	var m nclient6.Matcher
 	if !nilMatch {
@@ -315,7 +323,14 @@ func (a *api6) Datagram(id, xid int, kind string) []byte {
 		case 0:
 			return []byte{7, byte(id)} // truncated header
 		case 1:
-			return append([]byte{12, 0}, make([]byte, 32)...) // a relay message is not a Message
+			// a relay message is not a client's message, whatever it carries: here a complete, acceptable reply to the call
+			good := a.Datagram(id, xid, "good")
+			relay := append(append([]byte{13, 0}, make([]byte, 32)...), 0, 9, byte(len(good)>>8), byte(len(good)))
+			relay = append(relay, good...)
+			if id%2 == 0 { // ... two levels deep
+				relay = append(append(append([]byte{12, 1}, make([]byte, 32)...), 0, 9, byte(len(relay)>>8), byte(len(relay))), relay...)
+			}
+			return relay
 		case 2: // an option that overruns the datagram, after a well-formed one
 			x := xid6(xid)
 			return []byte{7, x[0], x[1], x[2], 0, 14, 0, 0, 0, 1, 0, 40, 0, 1, 2, 3, 4, 5, 6, 7, 8, 9}
